@@ -2207,6 +2207,45 @@ def listify(entry, names):
     return new
 
 
+def listify_splicer_code(entry, level=0):
+    """Convert the splicer_code group into nested dictionaries of lists
+    of lines.  The first level names the wrapper (c, f, py, lua).
+    Text may be a list of lines or a newline delimited string.
+
+    splicer_code:
+      c:
+        C_definitions: |
+          // line 1
+          // line 2
+        function:
+          name:
+          - // line 1
+          -
+          - // line 3
+    """
+    new = {}
+    for key, value in entry.items():
+        if key == "__line__":
+            continue
+        elif isinstance(value, dict):
+            new[key] = listify_splicer_code(value, level + 1)
+        elif level == 0:
+            raise RuntimeError(
+                "splicer_code for '{}' must be a dictionary, found '{}'"
+                .format(key, value))
+        elif value is None:
+            new[key] = []
+        elif isinstance(value, str):
+            new[key] = value.split("\n")
+            if value and value[-1] == "\n":
+                new[key].pop()
+        elif isinstance(value, list):
+            new[key] = ["" if v is None else str(v) for v in value]
+        else:
+            new[key] = [ str(value) ]
+    return new
+
+
 def add_declarations(parent, node):
     """Add "declarations" from node dictionary.
 
